@@ -346,7 +346,7 @@ func (update *Update) Prepend(eventlist *EventList) error {
 	}
 	ours := update.Events[0].Index
 	last := eventlist.Events[count-1].Index
-	if last < ours-1 {
+	if last+1 < ours {
 		return errors.New("missing events")
 	}
 	min := 1 + last - ours
@@ -363,7 +363,11 @@ func (update *Update) Prepend(eventlist *EventList) error {
 	} else {
 		n.product = big.NewInt(1)
 	}
-	n.Events = append(eventlist.Events, n.Events...)
+	// a fresh array: appending to the caller's list would write into its spare capacity, which other updates that
+	// were extended with the same list may share
+	merged := make([]*Event, 0, len(eventlist.Events)+len(n.Events))
+	merged = append(merged, eventlist.Events...)
+	n.Events = append(merged, n.Events...)
 	if eventlist.product != nil {
 		n.product.Mul(n.product, eventlist.product)
 		n.productFrom = eventlist.Events[0].Index
